@@ -2918,6 +2918,12 @@ def default_inline(ex, callee, info):
         return True      # Publish/Pubrel -> stored packet: decided by the same qos() atom the handler tested
     if small_private_helper(callee):
         return True      # small private helper of a packet module (e.g. a predicate factored out of build()/parse())
+    if callee.get("kind") == "AssocFn" and not callee.get("pub") and (callee.get("impl_self") or "").startswith("mqtt::connection::core::") \
+            and len(callee["blocks"]) <= 160:
+        return True      # methods of private helper types of the connection module (a decision enum, a grouped-fields struct)
+    if callee.get("name") in ("try_from", "from", "try_from_primitive") and callee.get("impl_trait") \
+            and callee["path"].lstrip("<").startswith("mqtt::packet::packet_type::") and not has_back_edge(callee) and len(callee["blocks"]) <= 120:
+        return True      # conversion table u8 <-> PacketType (hand-written or derived): the case split a `match` on the raw value makes
     return False
 
 
